@@ -1,13 +1,14 @@
 SPECIFICATION Spec
 CONSTANTS
   NProc = 2
-  NGuards = 3
-  NAsgs = 4
-  NInvs = 3
+  NGuards = 2
+  NAsgs = 2
+  NInvs = 2
   TwoArr = TRUE
   Record = FALSE
   MaxSteps = 0
   WpMulti = 0
+  RunSet = 0
   DoEmit = TRUE
   DoWp = TRUE
   DoRun = FALSE
